@@ -511,15 +511,23 @@ impl GenStream {
 
 /// a random conformant stream: 0..=6 chunks, per-chunk choice of run vs array/bitset, both cookies
 pub fn gen_stream(r: &mut Rng, small: bool) -> GenStream {
-    let n = match r.below(20) {
-        0 => 0,
-        1..=4 => 1,
-        5..=8 => 2,
-        9..=11 => 3,
-        12..=15 => 4,
-        16..=17 => 5,
-        _ => 6,
+    // mostly 0..=6 chunks; sometimes many (tiny) chunks, in particular counts around the multiples of 8
+    // (size of the run-flag bitmap) and 16/17
+    let many = r.chance(1, 10);
+    let n = if many {
+        *r.pick(&[7u64, 8, 8, 9, 15, 16, 16, 17, 24])
+    } else {
+        match r.below(20) {
+            0 => 0,
+            1..=4 => 1,
+            5..=8 => 2,
+            9..=11 => 3,
+            12..=15 => 4,
+            16..=17 => 5,
+            _ => 6,
+        }
     } as usize;
+    let small = small || many;
     let keys = gen_keys(r, n);
     let run_pct = *r.pick(&[0u64, 30, 50, 50, 80, 100]);
     let mut chunks = Vec::new();
